@@ -97,6 +97,12 @@ func (i *interpreter) sqlMethod(fr *frame, fn *ssa.Function, name string, args [
 	}
 	st := i.sqlState()
 	res := fn.Signature.Results()
+	// as in database/sql, the methods of Stmt, Rows and Tx dereference their receiver
+	if len(args) > 0 {
+		if p, isPtr := args[0].(*value); isPtr && p == nil {
+			panic(runtimeError("invalid memory address or nil pointer dereference"))
+		}
+	}
 	switch name {
 	case "(*database/sql.Tx).Prepare":
 		if st.fail == "prepare" {
